@@ -76,3 +76,46 @@ Theorem C11_cache_afterwards_correct : forall evs ttl tick t0,
     c09_result evs (a, b, rv) out.
 Proof. exact C11_afterwards_correct. Qed.
 Print Assumptions C11_cache_afterwards_correct.
+
+(* ---- the same for MASK caches (cached(T) with T a mask: never stitched), any source events, any
+   monotone clock (time may pass while waiting for the lock, between eviction and gap computation,
+   before each gap fill) and a source that may have changed between fetches (Proofs/ConcMask.v) ---- *)
+From CG Require Import Proofs.CacheMask Proofs.ConcMask.
+
+Theorem C11_mask_results_eq_source : forall evs ttl tick t0 qps sch,
+  tick >= 0 ->
+  Forall (Forall (mqwf (covers evs) ttl tick)) qps ->
+  let c := run (cinit_cfg t0 qps) sch in
+  all_done c = true ->
+  forall i qp t, nth_error qps i = Some qp -> nth_error (threads c) i = Some t ->
+    Forall2 (c09m_result (covers evs)) (fetches qp) (t_res t).
+Proof. exact ConcMask.C11_mask_results_eq_source. Qed.
+Print Assumptions C11_mask_results_eq_source.
+
+Theorem C11_mask_afterwards_correct : forall evs ttl tick t0 qps sch,
+  tick >= 0 ->
+  Forall (Forall (mqwf (covers evs) ttl tick)) qps ->
+  let c := run (cinit_cfg t0 qps) sch in
+  all_done c = true ->
+  forall v a b rv s' out log,
+    NEG_INF < a -> a < b -> b < POS_INF ->
+    cquery true ttl tick (src_of evs v) (sh c) a b rv = (s', out, log) ->
+    c09m_result (covers evs) (a, b, rv) out.
+Proof. exact ConcMask.C11_mask_afterwards_correct. Qed.
+Print Assumptions C11_mask_afterwards_correct.
+
+(* whenever nobody holds the lock, the shared state meets the cache invariants: no duplicated or
+   missing coverage *)
+Theorem C11_mask_state_invariant : forall evs ttl tick t0 qps sch,
+  tick >= 0 ->
+  Forall (Forall (mqwf (covers evs) ttl tick)) qps ->
+  let c := run (cinit_cfg t0 qps) sch in
+  holder c = None ->
+  heap_inv ttl (sh c) /\ mask_inv (covers evs) (sh c).
+Proof. exact ConcMask.C11_mask_state_inv. Qed.
+Print Assumptions C11_mask_state_invariant.
+
+(* non-vacuity: two threads of two fetches each with different waits and source versions; the
+   conclusion checked on ALL 165 complete interleavings by computation *)
+Example C11_mask_nonvacuous : _ := ConcMask.ex_mask_thm.
+Example C11_mask_every_schedule : _ := ConcMask.ex_mask_every_schedule.
